@@ -245,6 +245,8 @@ class Shadow:
     def names(self, t):
         """resolved at the end of the path (whether a stand-in was copied back later is known then)"""
         out = set()
+        if t and any(s.get("cast_name") in getattr(self, "redundant", ()) for s in self.st.values()):
+            out.add("memory_space_cast_duplicated_although_an_earlier_one_is_defined_before_all_its_users")
         for k in t:
             h = self.hz[k]
             if h["kind"] == "original_changed_after_stand_in_was_filled":
@@ -276,8 +278,9 @@ def handlers(M: Machine, module, after):
         t = op.results[0].type
         # contents of a fresh allocation are arbitrary: every allocation gets its own unconstrained array
         v = root_view(M, f"alloc:{hint or 'tmp'}", t)
-        if after and hint is None:
+        if after and (hint is None or hint.startswith("si")):
             M.shadow.standin(v.root)
+            M.shadow.st[v.root]["cast_name"] = hint
             # which buffer it stands in for: the other side of the copies realize-memref-casts attached to it
             M.shadow.st[v.root]["has_fill"] = any(u.operation.name == "memref.copy" and u.index == 1 for u in op.results[0].uses)
             for u in op.results[0].uses:
@@ -620,8 +623,39 @@ def insert_layout_casts(main, m, rnd, share):
     return n
 
 
-def run_machine(m, name, args_roots, K, after, o0, lbubst):
+def mark_casts(m):
+    """name every cast value (the name is inherited by the allocation that replaces it) and find memory-space casts
+    that duplicate an earlier cast of the same value although that one is defined before all their users: a buffer
+    then gets two stand-ins where one would do.  Only used to NAME the situation of a failing data obligation."""
+    def before(a, user):
+        blk = a.parent_block()
+        anc = user
+        while anc is not None and anc.parent_block() is not blk:
+            anc = anc.parent_op()
+        if anc is None:
+            return False
+        nxt = a.next_op
+        while nxt is not None:
+            if nxt is anc:
+                return True
+            nxt = nxt.next_op
+        return False
+
+    casts = [op for op in m.walk() if op.name in ("memref.memory_space_cast", "snax.layout_cast") and op.results[0].uses]
+    redundant = set()
+    for n, op in enumerate(casts):
+        op.results[0].name_hint = f"si{n}"
+    msc = [op for op in casts if op.name == "memref.memory_space_cast"]
+    for i, a in enumerate(msc):
+        for b in msc[i + 1:]:
+            if a.operands[0] is b.operands[0] and a.results[0].type == b.results[0].type and all(before(a, u.operation) for u in b.results[0].uses):
+                redundant.add(b.results[0].name_hint)
+    return redundant
+
+
+def run_machine(m, name, args_roots, K, after, o0, lbubst, redundant=()):
     M = Machine(name, None)
+    M.shadow.redundant = set(redundant)
     I = irsym.Interp(K=K, intmode=True, handlers=None, name=name)
     I.handlers.update(handlers(M, m, after))
     f = [g for g in irsym.module_funcs(m) if g.sym_name.data == "f"][0]
@@ -658,6 +692,7 @@ def case_prog(case, K=2):
         ncast = insert_layout_casts(main, m2, rnd, share)
         m2.verify()
         staged = str(m2)
+        redundant = mark_casts(m2)
         xshim.apply_passes(m2, "realize-memref-casts", main)
         # static part of the property
         from snaxc.util.snax_memory import L1, L3
@@ -687,7 +722,7 @@ def case_prog(case, K=2):
         roots = [z3.Array(f"in{k}", z3.IntSort(), z3.IntSort()) for k in range(2)]
         M1, fin1, _ = run_machine(m1, "before", roots, K, False, o0, (lb, ub, st))
         try:
-            M2, fin2, _ = run_machine(m2, "after", roots, K, True, o0, (lb, ub, st))
+            M2, fin2, _ = run_machine(m2, "after", roots, K, True, o0, (lb, ub, st), redundant)
         except irsym.Undefined as e:
             E.oblige("result:values_defined_before_use", False, dict(error=str(e)[:300]))
             return
